@@ -778,9 +778,21 @@ def call_function(self, fi: FuncInfo, args, kwargs, st: State, node, self_term=N
 
 
 def _havoc_args(self, args, st):
+    """containers handed to a call that is not analysed in line may be mutated by it"""
     for a in args:
         o = self.obj(st, a)
-        if o is not None and o.kind in ("list", "dict", "bytearray"):
+        if o is not None and o.kind in ("list", "dict", "bytearray", "set"):
+            if o.kind == "dict":
+                if o.exact:
+                    o.writes = [(C(k), v, o.created_ctx) for k, v in o.kv.items()]
+                    o.kv = {}
+                    o.exact = False
+                o.writes.append((sym("callee_key"), sym("callee_value"), st.ctx))
+            else:
+                if o.exact:
+                    o.items = [(x, o.created_ctx, "init") for x in o.items]
+                    o.exact = False
+                o.items.append((sym("callee_item"), st.ctx, "callee"))
             o.version += 1
 
 
